@@ -114,10 +114,10 @@ class C17:
             if l.op == 'conv_se3_iso_ctor' and len(l.outs) == 11:
                 out.append(Line(' '.join(['conv_se3_iso_glue', l.grp, l.prec] + l.ins + l.outs[7:11]) + ' | '
                                 + ' '.join(l.outs[:7]) + ' # ' + l.tag))
-            elif l.op in ('conv_euler', 'conv_euler_xyz') and len(l.outs) == 7:
+            elif (l.op in ('conv_euler', 'conv_euler_xyz') or l.op.startswith('conv_euler_a')) and len(l.outs) == 7:
                 out.append(Line(' '.join(['conv_of_euler' + l.op[10:], l.grp, l.prec] + l.outs[:3]) + ' | ' + ' '.join(l.outs[3:7])
                                 + ' # derived'))
-            elif l.op not in NO_T1:
+            elif l.op not in NO_T1 and not l.op.startswith('conv_euler_a'):
                 out.append(l)
         return out
 
@@ -265,11 +265,15 @@ class C17:
                 canon(l, l.outs[3]); canon(l, l.outs[7])
                 areq('conv_a_rot3', l, l.outs, f'rot_{op[-1]}(t) and exp(t e_i) are different rotations')
                 areq('conv_a_rotexp_' + op[-1], l, l.ins + l.outs[4:8], 'matrix(exp(t e_i)) != matrix exponential of hat(t e_i)')
-            elif op in ('conv_of_euler', 'conv_of_euler_xyz'):
+            elif op in ('conv_of_euler', 'conv_of_euler_xyz') or op.startswith('conv_of_euler_a'):
                 canon(l, l.outs[3])
             elif op == 'conv_euler':
                 canon(l, l.outs[6])
                 areq('conv_a_rot3', l, l.ins + l.outs[3:7], 'rot_z(e0) rot_y(e1) rot_x(e2) of eulerAngles() is not the rotation')
+            elif op.startswith('conv_euler_a'):
+                canon(l, l.outs[6])
+                areq('conv_a_rot3', l, l.ins + l.outs[3:7],
+                     f'rot_{{i1}}(e0) rot_{{i2}}(e1) rot_{{i3}}(e2) of eulerAngles({op[12]},{op[13]},{op[14]}) is not the rotation')
             elif op == 'conv_euler_xyz':
                 canon(l, l.outs[6])
                 areq('conv_a_rot3', l, l.ins + l.outs[3:7], 'rot_x(e0) rot_y(e1) rot_z(e2) of eulerAngles(0,1,2) is not the rotation')
